@@ -26,12 +26,14 @@
                                   three loops end without error every face of an in-use dart and every boundary
                                   edge (edge of an in-use 2-free dart) is anchored
   * `C17_boundary_loop_terminates` the loop over boundaries without anchored vertex terminates (fuel never exhausted)
+  * `C17_classify_terminates`     `classify_capture` is total: it terminates on every well-formed map with the anchor
+                                  storages, whatever anchors it carries; outcome `Ok`, `UnsupportedGeometry`, or the
+                                  panic of a final assertion after the three loops ended with `Ok` (no index panic)
   * `C17_classify_assertion_can_fire`  the unconditional version of (a) is FALSE on arbitrary well-formed maps
                                   (dangling edge: vertex left unanchored, the debug assertion panics)
 
   NOT PROVED (see SPEC["not_proved"] of tools/props/c17.py): that the assertions cannot fire on capture
-  outputs; termination of the face queue; one surface id per connected component; the geometric part of
-  capture.
+  outputs; one surface id per connected component; the geometric part of capture.
 -/
 import Honeycomb.Model.Capture
 import Honeycomb.Lemmas.Run
